@@ -457,6 +457,15 @@ inductive Op where
   | clone (c : Nat)
   deriving Repr, Inhabited
 
+/-- A statement / script creation without in-place update of an object (`dst.key = v`). -/
+def Stmt.pure : Stmt → Bool
+  | .selset _ _ _ => false
+  | _ => true
+
+def Op.pure : Op → Bool
+  | .newScript src => src.all Stmt.pure
+  | _ => true
+
 /-! ### Association lists -/
 
 def hasKey {α : Type} (n : String) (l : List (String × α)) : Bool := l.any (fun p => p.1 == n)
